@@ -292,6 +292,9 @@ func AfterSelectRecv(hasDefault bool, ch any, all ...any) {
 		schedAfterRecv(ch)
 		return
 	}
+	if isRetired(ch) {
+		runtime.Goexit() // see clock.go: the select fired on the closed ticker of an abandoned instance
+	}
 	k := chanKey(ch)
 	gmu.Lock()
 	if !hasDefault {
@@ -327,7 +330,10 @@ func GC() {}
 // Recv / Recv2 replace receive expressions (`<-ch`, `v, ok := <-ch`) wherever they occur.
 func Recv[T any](ch <-chan T) T {
 	BeforeRecv(ch)
-	v := <-ch
+	v, ok := <-ch
+	if !ok && !controlled.Load() && isRetired(ch) {
+		runtime.Goexit() // a goroutine of an abandoned instance woke up from its retired ticker
+	}
 	AfterRecv(ch)
 	return v
 }
@@ -335,6 +341,9 @@ func Recv[T any](ch <-chan T) T {
 func Recv2[T any](ch <-chan T) (T, bool) {
 	BeforeRecv(ch)
 	v, ok := <-ch
+	if !ok && !controlled.Load() && isRetired(ch) {
+		runtime.Goexit()
+	}
 	AfterRecv(ch)
 	return v, ok
 }
